@@ -68,7 +68,7 @@ CLAIMS.update({
         note="Bounds: tables of 1-3 rows over Kmer4 / 2 rows over Kmer3 (quick), also Kmer2,5,6 with 3 rows (thorough). boomphf = model M1 (key-verified lookup). Assumed table validity: distinct keys, canonical when unstranded, reciprocal extension on the examined link (the code's documented unreachable panic). Stubs S1, S2.",
         ref="DESIGN.md §5 C02"),
     "C03": dict(
-        text="find_link on 2-3-node graphs for ALL 4^K query k-mers (present and absent), both directions, stranded and unstranded: Some((id, side, flip)) iff that node end spells the query (or its reverse complement, unstranded only), with the documented precedence, None otherwise; get_valid_exts/fix_exts keep a bit iff set and resolving to a valid node; remove_censored_exts and _sharded on every sorted table of <= 3 rows keep exactly the bits whose canonical target is valid / not (present-in-all-kmers and invalid) and change nothing else; the Exts algebra for all 256 sets." + PART + "equality of the edge set with the input's (K+1)-mers, u<->v symmetry on built graphs, and the best-path queries (HashSet/VecDeque/float scores) are NOT covered; find_edges / Node::{l_edges,r_edges,edges} return exactly the set extension bits that resolve, in base order (2-node graph quick, further shapes thorough; SmallVec heap spill stubbed to an asserted-unreachable, S7).",
+        text="find_link on 2-3-node graphs for ALL 4^K query k-mers (present and absent), both directions, stranded and unstranded: Some((id, side, flip)) iff that node end spells the query (or its reverse complement, unstranded only), with the documented precedence, None otherwise; get_valid_exts/fix_exts keep a bit iff set and resolving to a valid node; remove_censored_exts and _sharded on every sorted table of <= 3 rows keep exactly the bits whose canonical target is valid / not (present-in-all-kmers and invalid) and change nothing else; the Exts algebra for all 256 sets." + PART + "equality of the edge set with the input's (K+1)-mers, u<->v symmetry on built graphs, and the best-path queries (HashSet/VecDeque/float scores) are NOT covered; find_edges / Node::{l_edges,r_edges,edges} return exactly the set extension bits that resolve, in base order (2-node graphs with node lengths (3,4) and (3,5) quick — the latter lets one side reach the same neighbour through both of its ends —, further shapes thorough; SmallVec heap spill stubbed to an asserted-unreachable, S7).",
         note="Bounds: K in {3,4}, node lengths K..K+1, graphs of 2 nodes (quick) / 3 nodes (thorough); censoring tables over Kmer4 (quick), Kmer3/5/8 (thorough). boomphf = model M1; node-end k-mers assumed pairwise distinct per side (MPHF precondition). Stubs S1, S2.",
         ref="DESIGN.md §5 C03"),
     "C05": dict(
@@ -88,7 +88,7 @@ CLAIMS.update({
         note="Bounds: quick tier N == k (one k-mer per read; k in {3,4}); thorough N = k+1..k+2 (up to 3 k-mers; symbolic permutation with N=k+1 needs > 12 GB and runs under the 30 GB thorough cap, reported inconclusive if it does not fit). P=Kmer2, piece container Lmer1 only. Stubs S1, S2. Exts::from_slice_bounds separately for all positions of 6-base reads.",
         ref="DESIGN.md §4 C08"),
     "C09": dict(
-        text="The node-level join decision — one call of the private try_extend_node via the add-only hook on 2-3-node graphs (all bases, extension sets, payloads, availability/censor subsets, strandedness, direction, start node): Unique(node, outgoing side, exts) iff one extension, not a single-k-mer palindrome, target resolves, is available, join accepted, exactly one extension on its incoming side; fix_exts/get_valid_exts leave no extension pointing at a removed or absent node; sequence_of_path spells two nodes with K-1 overlap and reverse-complements right-entered nodes. Round 2: the growth loop extend_node and the merged-node builder build_node of the re-compressor (hooks) on 2-node graphs against a reference walk in string terms: the walk continues exactly while the decision says Unique, consumes exactly the walked nodes, the merged sequence is the members' sequences in reading orientation overlapped by K-1, the node path, the payload fold (order-independent, non-associative test reduction) and the merged extensions are the reference ones." + PART + "the outer seed loop of compress_graph, idempotence of re-compression and equality with the direct route are properties of whole runs and are NOT executed.",
+        text="The node-level join decision — one call of the private try_extend_node via the add-only hook on 2-3-node graphs (all bases, extension sets, payloads, availability/censor subsets, strandedness, direction, start node): Unique(node, outgoing side, exts) iff one extension, not a single-k-mer palindrome, target resolves, is available, join accepted, exactly one extension on its incoming side; fix_exts/get_valid_exts leave no extension pointing at a removed or absent node; sequence_of_path spells two nodes with K-1 overlap and reverse-complements right-entered nodes. Round 2: the growth loop extend_node of the re-compressor (hook) on 2-node graphs against a reference node walk in string terms: the walk continues exactly while the decision says Unique, visits the reference nodes with the reference incoming sides, consumes exactly the walked nodes and reports the end extensions." + PART + "the merged-node builder (harness built, no verdict within 25 min, not registered), the outer seed loop of compress_graph, idempotence of re-compression, equality with the direct route and payload folding over whole paths are NOT covered.",
         note="Bounds: K in {3,4}, node lengths K..K+1, 2 nodes (quick) / 3 nodes (thorough). Model M1; distinct node-end k-mers per side; the examined extension resolves and its target has >= 1 facing extension (the code's documented panics otherwise). Stubs S1, S2.",
         ref="DESIGN.md §5 C09"),
 })
